@@ -12,14 +12,25 @@
 //                    reached with -fno-access-control): the permutation / split / assignment the
 //                    real code chose is read off the result and handed to the Lean skeleton, which
 //                    must then reproduce the state exactly
-//   public passes    run / runCoarsening / runRefinement / refine / improve: snapshot of the
-//                    allocation; the driver checks the allocation invariant on it.
+//   public passes    run / runCoarsening / runRefinement / refine / improve.  With the op-log hook H4
+//                    (COLOQUINTE_VERIF_HAS_H4, fixes/hook-h4-density-legalizer-oplog.diff) every private
+//                    rebisect / reoptimize / improveX/YTransport call and every level change the pass
+//                    makes is logged; the Lean driver computes the pass' schedule from the integer
+//                    parameters and the hierarchy (Model/GridSched.lean) and checks call by call that the
+//                    logged call is the next scheduled one and that the skeleton of the scheduled call,
+//                    with the observed permutation / split / assignment, reproduces the bins it touched
+//                    (whole allocation after transports, level changes and at the end of the pass).
+//                    Without the hook: snapshot of the allocation after the pass; the driver checks the
+//                    allocation invariant on it.
 // The direct oracle below is independent C++ evaluating the property statement on the real object
 // after every step.  Each case runs in a forked child (the code's own check() asserts are compiled in).
 #include <algorithm>
 #include <climits>
 #include <cmath>
+#include <fcntl.h>
+#include <map>
 #include <memory>
+#include <thread>
 
 #include "common/circuit.hpp"
 #include "place_global/density_legalizer.hpp"
@@ -37,6 +48,7 @@ struct Sink {  // per-case output collected in the child
   void both(const std::string &s) { op(s); impl(s); }
   void fail(const std::string &s) { os << "F " << s << "\n"; }
   void count(const std::string &s) { os << "C " << s << "\n"; }
+  void countN(const std::string &s, long long n) { if (n) os << "M " << n << " " << s << "\n"; }
   void nontrivial() { os << "N\n"; }
 };
 
@@ -488,15 +500,157 @@ struct Walker {
     oracle(xdir ? "improveXTransport" : "improveYTransport");
   }
 
-  void publicPass(const std::string &name) {
-    Snapshot before = snap();
+  void runPass(const std::string &name) {
     if (name == "run") leg.run();
     else if (name == "runCoarsening") leg.runCoarsening();
     else if (name == "runRefinement") leg.runRefinement();
     else if (name == "refine") leg.refine();
     else leg.improve();
+  }
+
+#ifdef COLOQUINTE_VERIF_HAS_H4
+  // ---- op-log replay of a public pass (hook H4)
+  std::ostringstream passBuf;  // O/I lines of the calls, emitted after the `pass` line
+  int depth = 0;
+  long long nbCalls = 0, nbChoices = 0, nbNested = 0;
+  std::string choices;
+  std::string logged;  // the outermost call and the calls nested in it
+  std::string curKind;
+  std::vector<int> curArgs;
+  std::vector<std::vector<int>> candBefore;  // contents of the candidate bins on entry of reoptimize
+  Snapshot allBefore;                        // all bins on entry of a transport pass
+
+  static Walker *&active() { static Walker *w = nullptr; return w; }
+  static void hook(const char *kind, const int *args, int n) {
+    if (active()) active()->onOp(kind, std::vector<int>(args, args + n));
+  }
+
+  void onOp(const std::string &kind, const std::vector<int> &args) {
+    Sink kb(passBuf);
+    if (kind == "coarsenChoice") {
+      choices += " " + std::to_string(args.at(0)) + " " + std::to_string(args.at(1));
+      nbChoices++;
+      return;
+    }
+    if (kind == "refineX" || kind == "refineY" || kind == "coarsenX" || kind == "coarsenY") {
+      if (depth != 0) kb.fail("level change logged inside a redistribution call");
+      kb.op("pcall " + kind);
+      kb.impl("pcall ok");
+      dumpAlloc(kb, leg);
+      dumpView(kb, leg);
+      nbCalls++;
+      return;
+    }
+    if (kind == "end") {
+      if (--depth == 0) finishCall(kb);
+      return;
+    }
+    std::string text = kind + (args.empty() ? "" : " " + vh::join(args));
+    if (depth == 0) {
+      logged = text;
+      curKind = kind;
+      curArgs = args;
+      candBefore.clear();
+      if (kind == "reoptimize")
+        for (size_t q = 0; q + 1 < args.size(); q += 2) candBefore.push_back(leg.binCells(args[q], args[q + 1]));
+      else if (kind != "rebisect")
+        allBefore = snap();
+    } else {
+      logged += " ; " + text;
+      nbNested++;
+    }
+    depth++;
+  }
+
+  void touchedLine(Sink &kb, const std::vector<std::pair<int, int>> &touched) {
+    std::vector<std::string> b;
+    std::vector<int> cx, cy;
+    for (auto &t : touched) {
+      b.push_back(showBin(leg.binCells(t.first, t.second)));
+      for (int c : leg.binCells(t.first, t.second)) { cx.push_back(leg.cellBinX(c)); cy.push_back(leg.cellBinY(c)); }
+    }
+    kb.impl(line("tb", vh::join(b)) + " | " + vh::join(cx) + " | " + vh::join(cy));
+  }
+
+  // the outermost call returned: read the float-dependent choices off the result
+  void finishCall(Sink &kb) {
+    nbCalls++;
+    std::ostringstream os;
+    os << "pcall " << logged << " |";
+    std::vector<std::pair<int, int>> touched;
+    if (curKind == "rebisect" || (curKind == "reoptimize" && curArgs.size() == 4)) {
+      std::pair<int, int> a{curArgs[0], curArgs[1]}, b{curArgs[2], curArgs[3]};
+      std::vector<int> order = leg.binCells(a.first, a.second);
+      os << " " << order.size() << " |";
+      if (a != b) order.insert(order.end(), leg.binCells(b.first, b.second).begin(), leg.binCells(b.first, b.second).end());
+      for (int c : order) os << " " << c;
+      os << " |";
+      touched.push_back(a);
+      if (a != b || curKind == "reoptimize") touched.push_back(b);
+    } else if (curKind == "reoptimize") {
+      for (size_t q = 0; q + 1 < curArgs.size(); q += 2) touched.push_back({curArgs[q], curArgs[q + 1]});
+      os << " 0 | |";
+      std::vector<std::pair<int, int>> pos;
+      for (auto &c : touched) if (leg.binCapacity(c.first, c.second) > 0) pos.push_back(c);
+      for (auto &cells : candBefore)
+        for (int cell : cells) {
+          int r = 999;
+          for (size_t q = 0; q < pos.size(); ++q)
+            if (pos[q].first == leg.cellBinX(cell) && pos[q].second == leg.cellBinY(cell)) r = q;
+          os << " " << r;
+        }
+    } else {
+      bool xdir = curKind == "improveXTransport";
+      int outer = xdir ? leg.nbBinsY() : leg.nbBinsX(), inner = xdir ? leg.nbBinsX() : leg.nbBinsY();
+      for (int o = 0; o < outer; ++o) {
+        if (o) os << " |";
+        for (int i = 0; i < inner; ++i)
+          for (int c : (xdir ? allBefore[i][o] : allBefore[o][i])) os << " " << (xdir ? leg.cellBinX(c) : leg.cellBinY(c));
+      }
+      kb.op(os.str());
+      kb.impl("pcall ok");
+      dumpAlloc(kb, leg);
+      return;
+    }
+    kb.op(os.str());
+    kb.impl("pcall ok");
+    touchedLine(kb, touched);
+  }
+
+  void replayPass(const std::string &name) {
+    passBuf.str("");
+    depth = 0; nbCalls = nbChoices = nbNested = 0;
+    choices.clear();
+    active() = this;
+    verif::onDensityLegalizerOp = &Walker::hook;
+    runPass(name);
+    verif::onDensityLegalizerOp = nullptr;
+    active() = nullptr;
+    if (depth != 0) k.fail("after " + name + ": unbalanced call log");
+    k.op("pass " + name + " |" + choices);
+    k.impl("pass " + name + " " + std::to_string(nbCalls) + " " + std::to_string(nbChoices));
+    k.os << passBuf.str();
+    k.op("endpass");
+    k.impl("endpass 0");
+    dumpAlloc(k, leg);
+    k.count("pass_replayed_by_oplog");
+    k.countN("pass_calls_checked_against_schedule", nbCalls);
+    k.countN("pass_nested_rebisect_calls", nbNested);
+    k.countN("pass_coarsening_decisions", nbChoices);
+    if (nbCalls == 0) k.count("pass_with_empty_schedule");
+  }
+#endif
+
+  void publicPass(const std::string &name) {
+    Snapshot before = snap();
+#ifdef COLOQUINTE_VERIF_HAS_H4
+    replayPass(name);
+#else
+    runPass(name);
     k.op("snap " + std::to_string(leg.levelX()) + " " + std::to_string(leg.levelY()) + " | " + binsString(leg) + " | " + cbString(leg, true) + " | " + cbString(leg, false));
     k.impl("snap ok");
+    k.count("pass_checked_by_snapshot_only");
+#endif
     dumpView(k, leg);
     k.count("pass_" + name);
     if (before != snap()) { changed = true; k.count("pass_changed_allocation"); }
@@ -602,6 +756,18 @@ void runCase(std::ostream &os, uint64_t seed, long long idx, const std::string &
     }
     HierarchicalDensityPlacement hp = HierarchicalDensityPlacement::fromIspdCircuit(c, sf, sm);
     k.impl("ispd " + std::to_string(mh) + " " + std::to_string(binSize) + " " + std::to_string(margin));
+    {
+      // the domain of the Lean theorem circuit_grid_capacity_is_free_area (RowsDom), evaluated independently
+      bool dom = c.nbRows() > 0;
+      std::vector<Rectangle> rr(c.rows().begin(), c.rows().end());
+      for (size_t q = 0; q < rr.size(); ++q) {
+        if (rr[q].maxY - rr[q].minY <= 0 || rr[q].maxY - rr[q].minY != rr[0].maxY - rr[0].minY || rr[q].minX >= rr[q].maxX) dom = false;
+        for (size_t q2 = q + 1; q2 < rr.size(); ++q2)
+          if (rr[q].minX < rr[q2].maxX && rr[q2].minX < rr[q].maxX && rr[q].minY < rr[q2].maxY && rr[q2].minY < rr[q].maxY) dom = false;
+      }
+      k.impl(std::string("rowsdom ") + (dom ? "1" : "0"));
+      k.count(dom ? "circuit_rows_in_theorem_domain_(RowsDom)" : "circuit_rows_outside_theorem_domain");
+    }
     dumpGrid(k, hp.grid());
     for (int i = 0; i < c.nbCells(); ++i) demand.push_back(hp.cellDemand(i));
     k.impl(line("demands", vh::join(demand)));
@@ -667,6 +833,12 @@ void runCase(std::ostream &os, uint64_t seed, long long idx, const std::string &
   leg->updateCellTargetX(tx);
   leg->updateCellTargetY(ty);
   leg->setParams(genParams(g, gr.area, k));
+  {
+    const DensityLegalizer::Parameters &p = leg->params();
+    k.op("params " + std::to_string(p.nbSteps) + " " + std::to_string(p.lineReoptSize) + " " + std::to_string(p.lineReoptOverlap) + " " +
+         std::to_string(p.diagReoptSize) + " " + std::to_string(p.diagReoptOverlap) + " " + std::to_string(p.squareReoptSize) + " " +
+         std::to_string(p.squareReoptOverlap) + " " + (p.unidimensionalTransport ? "1" : "0"));
+  }
   Walker w{k, g, *leg, gr, demand, tx, ty};
   w.oracle("construction");
   int bins = grid.nbBins();
@@ -692,7 +864,7 @@ int main(int argc, char **argv) {
              "set accepted by RoughLegalizationParameters::check + a random walk of refine/coarsen/setBinCells/rebisect/reoptimize/"
              "improveRectangle/improveX/YTransport/run/refine/improve; non-trivial = more than one bin, at least one positive-demand "
              "cell and at least one redistribution step that changed the allocation; distinct by case input";
-  long long n = a.thorough() ? 50000 : (a.search() ? 5000 : 2500);
+  long long n = a.thorough() ? 200000 : (a.search() ? 5000 : 6000);
   std::vector<long long> todo;
   if (!a.replay.empty()) {
     // replay file: JSON written by check.py; the case id "k<idx>" identifies the generator index
@@ -703,11 +875,10 @@ int main(int argc, char **argv) {
   }
   if (todo.empty())
     for (long long i = 0; i < n; ++i) todo.push_back(i);
-  for (long long i : todo) {
-    if (a.only >= 0 && i != a.only) continue;
+  // one case's streams -> ops.txt / impl.txt / oracle.txt / stats
+  auto absorb = [&](long long i, const std::string &st, const std::string &output, const std::string &diag) {
     std::string id = "k" + std::to_string(i);
-    std::string output, diag, input;
-    std::string st = vh::isolated([&](std::ostream &os) { runCase(os, a.seed, i, id, nullptr); }, output, 120, &diag);
+    std::string input;
     out.evaluations++;
     // the input description is the first op lines of the case
     std::istringstream is(output);
@@ -722,6 +893,7 @@ int main(int argc, char **argv) {
       else if (t == 'I') impl.push_back(body);
       else if (t == 'F') fails.push_back(body);
       else if (t == 'C') out.count(body);
+      else if (t == 'M') { size_t sp = body.find(' '); if (sp != std::string::npos) out.count(body.substr(sp + 1), atoll(body.c_str())); }
       else if (t == 'N') nontrivial = true;
     }
     for (size_t q = 0; q < ops.size() && q < 40; ++q)
@@ -730,13 +902,82 @@ int main(int argc, char **argv) {
     if (st != "ok") {
       out.fail(id, "crash inside the real code (" + st + "): " + diag.substr(0, 600), input);
       out.count("crashed_cases");
-      continue;  // nothing of this case goes to the streams
+      return;  // nothing of this case goes to the streams
     }
     for (auto &s : ops) out.ops << s << "\n";
     for (auto &s : impl) out.impl << s << "\n";
     for (auto &s : fails) out.fail(id, s, input);
     if (nontrivial) out.nontrivial(vh::hashStr(input));
     if (out.samples.size() < 4) out.sample(input.substr(0, 300));
+  };
+  auto runAlone = [&](long long i) {
+    std::string output, diag;
+    std::string st = vh::isolated([&](std::ostream &os) { runCase(os, a.seed, i, "k" + std::to_string(i), nullptr); }, output, 120, &diag);
+    absorb(i, st, output, diag);
+  };
+  if (a.only >= 0) {
+    std::vector<long long> t2;
+    for (long long i : todo) if (i == a.only) t2.push_back(i);
+    todo = t2;
+  }
+  if (todo.size() <= 4) {
+    for (long long i : todo) runAlone(i);
+  } else {
+    // Batches of cases per forked child (the fork of a sanitized process costs more than a case), several
+    // children at a time; results are absorbed in case order.  A case whose batch died before finishing it
+    // is run again alone, so that a crash is attributed to its case and costs nothing to the others.
+    const size_t B = 12;
+    const size_t P = std::max(1u, std::min(16u, std::thread::hardware_concurrency()));
+    struct Batch { std::vector<long long> idx; pid_t pid = -1; std::string file; };
+    std::vector<Batch> batches;
+    for (size_t q = 0; q < todo.size(); q += B) {
+      Batch b;
+      b.idx.assign(todo.begin() + q, todo.begin() + std::min(todo.size(), q + B));
+      b.file = a.out + "/batch-" + std::to_string(batches.size()) + ".txt";
+      batches.push_back(b);
+    }
+    auto start = [&](Batch &b) {
+      fflush(nullptr);
+      b.pid = fork();
+      if (b.pid != 0) return;
+      int efd = open((b.file + ".err").c_str(), O_WRONLY | O_CREAT | O_TRUNC, 0644);
+      if (efd >= 0) dup2(efd, 2);
+      alarm(900);
+      std::ofstream f(b.file);
+      for (long long i : b.idx) {
+        std::ostringstream os;
+        runCase(os, a.seed, i, "k" + std::to_string(i), nullptr);
+        f << "K " << i << "\n" << os.str() << "D " << i << "\n";
+        f.flush();
+      }
+      f.close();
+      _exit(0);
+    };
+    size_t started = 0;
+    for (size_t cur = 0; cur < batches.size(); ++cur) {
+      while (started < batches.size() && started < cur + P) start(batches[started++]);
+      Batch &b = batches[cur];
+      int st = 0;
+      if (b.pid > 0) waitpid(b.pid, &st, 0);
+      std::map<long long, std::string> done;
+      {
+        std::ifstream f(b.file);
+        std::string ln, acc;
+        long long curCase = -1;
+        while (std::getline(f, ln)) {
+          if (ln.rfind("K ", 0) == 0) { curCase = atoll(ln.c_str() + 2); acc.clear(); }
+          else if (ln.rfind("D ", 0) == 0) { if (curCase == atoll(ln.c_str() + 2)) done[curCase] = acc; curCase = -1; }
+          else if (curCase >= 0) { acc += ln; acc += "\n"; }
+        }
+      }
+      for (long long i : b.idx) {
+        auto it = done.find(i);
+        if (it != done.end()) absorb(i, "ok", it->second, "");
+        else { out.count("cases_rerun_alone_after_batch_died"); runAlone(i); }
+      }
+      unlink(b.file.c_str());
+      unlink((b.file + ".err").c_str());
+    }
   }
   out.finish();
   return 0;
